@@ -334,7 +334,6 @@ func flushPairs() {
 		for k, v := range m {
 			st.Set("overlap:"+k, v)
 		}
-		st.Set("overlap_pair_kinds", int64(len(m)))
 	}
 }
 
